@@ -21,6 +21,8 @@ job("setparams[other fmt]", P, H, "h_setparams_other_fmt", unwind=5, functions=[
 
 # T-B': a service accepted by _vbi_sampling_par_permit_service is accepted by set_params
 for row in range(NROWS):
+    if row in (10, 17):     # blank VBI pseudo services: never configured by add_services (obligation in setparams[table_end])
+        continue
     for fmt in QUICK_FMTS:
         job("permit[row=%d,fmt=%d]" % (row, fmt), P + ["C04"], H, "h_permit", defs=["SEL_ROW=%d" % row, "SEL_FMT=%d" % fmt],
             unwind=5, solver="kissat", timeout=900,
